@@ -239,6 +239,14 @@ UNIT_KEYS = ["pressure_mode", "pressure_unit", "loading_basis", "loading_unit", 
 MAIN_KEYS = set(UNIT_KEYS) | {"material", "adsorbate", "temperature"}
 
 
+def empty_content():
+    """Placeholder content for a row whose isotherm could not be constructed (nothing to project)."""
+    none = entry("-", None)
+    return {"cls": "none", "id": "", "labels": [], "adsorbate": none, "temperature": none, "tnum": ["?", 0, 0, -1], "material": none,
+            "matprops": [], "meta": [], "data": {"cols": [], "dtypes": [], "cells": [], "branch": [], "n": 0},
+            "model": {"name": "", "rmse": ["", 0, 0, -1], "rmse_tag": "", "params": [], "prange": [], "lrange": [], "range_tags": "", "pred": [], "branch": ""}}
+
+
 def project(iso, grid=None):
     """Abstract content of an isotherm (see Codec.tla, `Content`)."""
     import pygaps
@@ -580,6 +588,10 @@ class Builder:
         tc = row["tclass"]
         kw["temperature"] = pick("temp", TEMPS[tc])
         kw["temperature_unit"] = "K" if tc.startswith("K") else "°C"
+        self._then_celsius = tc.startswith("C") and rep % 2 == 1
+        if self._then_celsius:
+            kw["temperature"] = kw["temperature"] + 273.15
+            kw["temperature_unit"] = "K"
         kw["pressure_mode"] = row["pmode"]
         kw["pressure_unit"] = pick("punit", PRESSURE_UNITS) if row["pmode"] == "absolute" else None
         kw["loading_basis"] = row["lbasis"]
@@ -599,6 +611,15 @@ class Builder:
         return key_of(row["kc"], row["rep"], sep, row["fmt"]), value_of(row["vc"], row["rep"], sep)
 
     def build(self, row):
+        """Celsius temperature classes are reached, for every second representative, the way a user gets there:
+        the isotherm is built in kelvin and then converted with convert_temperature (the original then does not
+        depend on the constructor accepting the final representation)."""
+        iso = self._build(row)
+        if getattr(self, "_then_celsius", False):
+            iso.convert_temperature("°C")
+        return iso
+
+    def _build(self, row):
         import pandas
         import pygaps
         from pygaps.core.baseisotherm import BaseIsotherm
